@@ -60,12 +60,18 @@ func (rm *relayManager) GetUseRelays() bool {
 // stage 0 handshake packet for vpnIp through it.
 func (rm *relayManager) StartRelays(f *Interface, vpnIp netip.Addr, hh *HandshakeHostInfo, stage0 []byte) {
 	hostinfo := hh.hostinfo
-	if !rm.GetUseRelays() || len(hostinfo.remotes.relays) == 0 {
+	if !rm.GetUseRelays() {
 		hh.lastRelays = nil
 		return
 	}
 
-	relays := hostinfo.remotes.relays
+	// The remote list is rebuilt in place by the lighthouse handlers, work on a copy taken under its lock
+	relays := hostinfo.remotes.CopyRelays()
+	if len(relays) == 0 {
+		hh.lastRelays = nil
+		return
+	}
+
 	listLevel := slog.LevelDebug
 	prior := hh.lastRelays
 	if !slices.Equal(relays, prior) {
